@@ -99,6 +99,11 @@ pub struct Delivery {
 pub trait Adversary: Send {
     /// `idx` = number of datagrams seen so far (both directions).  Returns what is delivered.
     fn on_send(&mut self, idx: u64, now: Duration, d: &Dgram, log: &mut WireLog) -> Vec<Delivery>;
+    /// Asked when a scheduled datagram is due, just before it is handed to the socket: `false` = it is withdrawn
+    /// (an adversary that released a held-back datagram early cancels the timed copy, and vice versa).
+    fn on_deliver(&mut self, _now: Duration, _d: &Dgram, _log: &mut WireLog) -> bool {
+        true
+    }
 }
 
 /// Identity network.
@@ -233,6 +238,12 @@ impl Net {
                 let now = Instant::now();
                 while g.heap.peek().is_some_and(|s| s.due <= now) {
                     let s = g.heap.pop().unwrap();
+                    {
+                        let NetInner { adversary, log, .. } = &mut *g;
+                        if !adversary.on_deliver(now - self.start, &s.d, log) {
+                            continue;
+                        }
+                    }
                     g.log.bump("delivered");
                     if g.log.record {
                         let t_us = (now - self.start).as_micros() as u64;
@@ -745,8 +756,24 @@ pub struct PktEv {
     pub pn: Option<u64>,
     /// qlog frame_type of every frame
     pub frames: Vec<String>,
+    /// the numeric fields of the flow-control relevant frames (stream / max_* / *_blocked / reset_stream), in packet order
+    pub detail: Vec<FrInfo>,
     /// virtual instant of the event (compare with instants taken inside the case; `Net::start()` is the wire log's origin)
     pub at: Instant,
+}
+
+/// Numeric content of one frame as the endpoint's own qlog reports it (absent fields are `None`).
+#[derive(Clone, Debug, Default)]
+pub struct FrInfo {
+    pub ty: String,
+    pub stream_id: Option<u64>,
+    pub offset: Option<u64>,
+    pub length: Option<u64>,
+    pub maximum: Option<u64>,
+    pub limit: Option<u64>,
+    /// "bidirectional" | "unidirectional" (max_streams, streams_blocked)
+    pub stream_type: Option<String>,
+    pub fin: bool,
 }
 
 /// A `QLog` that keeps only `packet_received` / `packet_sent` events, in compact form, tagged with the endpoint.
@@ -761,6 +788,16 @@ impl PacketTap {
     }
     pub fn take(&self) -> Vec<PktEv> {
         self.evs.lock().unwrap_or_else(|e| e.into_inner()).clone()
+    }
+    /// Visit the events recorded from index `from` on; returns the number of events recorded so far
+    /// (an adversary that wants to know what the datagram it is looking at carries: `packet_sent` is logged when the
+    /// packet is assembled, before its datagram reaches the wire).
+    pub fn scan_from(&self, from: usize, mut f: impl FnMut(usize, &PktEv)) -> usize {
+        let g = self.evs.lock().unwrap_or_else(|e| e.into_inner());
+        for (i, e) in g.iter().enumerate().skip(from) {
+            f(i, e);
+        }
+        g.len()
     }
 }
 
@@ -779,12 +816,34 @@ impl dquic::qevent::telemetry::ExportEvent for TapExp {
         }
         let d = &v["data"];
         let frames = d["frames"].as_array().map(|a| a.iter().map(|f| f["frame_type"].as_str().unwrap_or("?").to_string()).collect()).unwrap_or_default();
+        let detail = d["frames"]
+            .as_array()
+            .map(|a| {
+                a.iter()
+                    .filter(|f| {
+                        let t = f["frame_type"].as_str().unwrap_or("");
+                        t == "stream" || t.starts_with("max_") || t.ends_with("_blocked") || t == "reset_stream" || t == "stop_sending"
+                    })
+                    .map(|f| FrInfo {
+                        ty: f["frame_type"].as_str().unwrap_or("?").to_string(),
+                        stream_id: f["stream_id"].as_u64(),
+                        offset: f["offset"].as_u64(),
+                        length: f["length"].as_u64(),
+                        maximum: f["maximum"].as_u64(),
+                        limit: f["limit"].as_u64(),
+                        stream_type: f["stream_type"].as_str().map(|x| x.to_string()),
+                        fin: f["fin"].as_bool().unwrap_or(false),
+                    })
+                    .collect()
+            })
+            .unwrap_or_default();
         self.evs.lock().unwrap_or_else(|e| e.into_inner()).push(PktEv {
             ep: self.ep.clone(),
             rcvd,
             ty: d["header"]["packet_type"].as_str().unwrap_or("?").to_string(),
             pn: d["header"]["packet_number"].as_u64(),
             frames,
+            detail,
             at: Instant::now(),
         });
     }
